@@ -50,3 +50,7 @@ add("C18",
     "property-based testing (proptest) + exhaustive ASCII / sampled Unicode character sweep: escape round-trip",
     "Strings brought into the stated domain by construction x round-trip (builds, invariant text == s, matches s, rejects mutants, no captures); every ASCII character and sampled scalar values checked against the documented meta-character set.",
     "Trusted: the documented meta set `?*$:<>()[]{},`; the sweep is exhaustive only for ASCII.")
+add("C02",
+    "property-based testing (proptest) on generated directory trees: walk results vs an independent read_dir traversal filtered with is_match",
+    "Generated trees x base spellings x globs in four shapes (plain, invariant prefix, rooted, `.`/`..` prefix) are walked and compared as multisets with a reference traversal that shares no code with walkdir or wax; every match is additionally checked against the walk's component programs (pruning soundness).",
+    "Trusted: the reference traversal; is_match as yardstick; paths compared component-wise; the base itself may but need not be yielded when the glob matches the empty path; trees of <= 24 entries on the sandbox's tmpfs.")
